@@ -1,7 +1,12 @@
 package gen
 
 import (
+	"fmt"
 	"time"
+
+	banktypes "github.com/cosmos/cosmos-sdk/x/bank/types"
+	"github.com/cosmos/gogoproto/proto"
+	gmptypes "github.com/cosmos/ibc-go/v11/modules/apps/27-gmp/types"
 
 	sdkmath "cosmossdk.io/math"
 
@@ -30,11 +35,13 @@ type Extras struct {
 	AliasXfer bool `json:"aliasxfer,omitempty"` // additionally one in-flight ICS-20 transfer sent as a v2 packet over the channel alias
 	RateLimit bool `json:"ratelimit,omitempty"` // rate limit on the native denom of chain A over the ICS-20 channel (needs Transfer)
 	ICA       bool `json:"ica,omitempty"`       // register an interchain account (controller A, host B)
+	PFM       bool `json:"pfm,omitempty"`       // A->B transfer forwarded back to A by the packet-forward middleware on B, left in flight (needs Transfer)
+	GMP       int  `json:"gmp,omitempty"`       // 1: ICS-27 GMP call A->B over the first v2 client link, 2: over the alias of the ICS-20 channel (needs Transfer); received on B
 }
 
 // extraState is what addExtras leaves behind for the history to play with.
 type extraState struct {
-	Xfer *sim.Link // the ICS-20 channel registered as an extra v1-unordered link (nil if none)
+	Xfer      *sim.Link // the ICS-20 channel registered as an extra v1-unordered link (nil if none)
 	XferAlias *sim.Link // alias view of Xfer (v2 packets addressed to the channel ids)
 }
 
@@ -102,7 +109,11 @@ func relayFull(w *sim.World, p *sim.Pkt, signer int) {
 	}
 }
 
-func addExtras(w *sim.World, ex Extras) extraState {
+func addExtras(w *sim.World, ex Extras) extraState { return addExtrasWith(w, ex, nil) }
+
+// addExtrasWith calls onRateLimit (if set) right after the block that committed the direct
+// AddRateLimit keeper call.
+func addExtrasWith(w *sim.World, ex Extras, onRateLimit func(*ratelimittypes.MsgAddRateLimit)) extraState {
 	var st extraState
 	if ex.Transfer {
 		sim.Guard("transfer path", func() {
@@ -120,6 +131,9 @@ func addExtras(w *sim.World, ex Extras) extraState {
 				vx.Harnessf("AddRateLimit: %v", err)
 			}
 			w.Block(0, 1)
+			if onRateLimit != nil {
+				onRateLimit(msg)
+			}
 		}
 		// one completed transfer A->B (voucher denom on B, escrow on A) ...
 		p, res := transferV1(w, l, 0, 0, sdk.NewInt64Coin(sdk.DefaultBondDenom, 1000), 1000)
@@ -138,6 +152,80 @@ func addExtras(w *sim.World, ex Extras) extraState {
 			if p, res = transferAlias(w, st.XferAlias, 0, 2, sdk.NewInt64Coin(sdk.DefaultBondDenom, 33), 900); p == nil {
 				vx.Harnessf("extras: aliased transfer failed: %v", res.Err)
 			}
+		}
+	}
+	if ex.Transfer && ex.PFM {
+		// A -> B with a forward memo: B's middleware escrows, sends B -> A on the same channel and
+		// keeps an in-flight record until that second packet is acknowledged or times out
+		l := st.Xfer
+		memo := fmt.Sprintf(`{"forward":{"receiver":%q,"port":%q,"channel":%q}}`, w.Addr(0, 2).String(), l.Port(1), l.ID(1))
+		th := clienttypes.NewHeight(clienttypes.ParseChainID(w.Chains[1].ChainID), uint64(w.Height(1)+1000))
+		msg := transfertypes.NewMsgTransfer(l.Port(0), l.ID(0), sdk.NewInt64Coin(sdk.DefaultBondDenom, 21), w.Addr(0, 2).String(), w.Addr(1, 2).String(), th, 0, memo)
+		res := w.Deliver(0, 2, msg)
+		if !res.OK {
+			vx.Harnessf("extras: pfm transfer failed: %v", res.Err)
+		}
+		pkt, err := ibctesting.ParseV1PacketFromEvents(res.Events)
+		if err != nil {
+			vx.Harnessf("cannot parse pfm transfer packet: %v", err)
+		}
+		p := &sim.Pkt{Idx: len(w.Pkts), Link: l.Idx, Dir: 0, SrcHeight: res.Height, P1: pkt}
+		w.Pkts = append(w.Pkts, p)
+		h := w.FreshHeight(l, 1, 2)
+		res = w.Deliver(1, 2, w.BuildRecv(p, h, 2))
+		if !res.OK {
+			vx.Harnessf("extras: pfm recv failed: %v", res.Err)
+		}
+		if fwd, err := ibctesting.ParseV1PacketFromEvents(res.Events); err == nil {
+			w.Pkts = append(w.Pkts, &sim.Pkt{Idx: len(w.Pkts), Link: l.Idx, Dir: 1, SrcHeight: res.Height, P1: fwd})
+		} else {
+			vx.Harnessf("extras: middleware on B did not forward: %v", err)
+		}
+	}
+	if ex.GMP != 0 {
+		var l *sim.Link
+		if ex.GMP == 1 {
+			for _, c := range w.Links {
+				if c.Kind == sim.V2Clients {
+					l = c
+					break
+				}
+			}
+		}
+		if l == nil {
+			l = st.XferAlias
+		}
+		if l != nil {
+			sender := w.Addr(0, 2).String()
+			salt := []byte("vx")
+			acct, err := w.App(1).GMPKeeper.GetOrComputeICS27Address(w.Ctx(1), &gmptypes.AccountIdentifier{ClientId: l.ID(1), Sender: sender, Salt: salt})
+			if err != nil {
+				vx.Harnessf("gmp address: %v", err)
+			}
+			if res := w.Deliver(1, 2, banktypes.NewMsgSend(w.Addr(1, 2), sdk.MustAccAddressFromBech32(acct), sdk.NewCoins(sdk.NewInt64Coin(sdk.DefaultBondDenom, 10)))); !res.OK {
+				vx.Harnessf("extras: funding the gmp account failed: %v", res.Err)
+			}
+			payload, err := gmptypes.SerializeCosmosTx(w.App(0).AppCodec(), []proto.Message{banktypes.NewMsgSend(sdk.MustAccAddressFromBech32(acct), w.Addr(1, 0), sdk.NewCoins(sdk.NewInt64Coin(sdk.DefaultBondDenom, 3)))})
+			if err != nil {
+				vx.Harnessf("gmp payload: %v", err)
+			}
+			ts := uint64(w.Coord.CurrentTime.Unix() + 3000)
+			res := w.Deliver(0, 2, gmptypes.NewMsgSendCall(l.ID(0), sender, "", payload, salt, ts, gmptypes.EncodingProtobuf, ""))
+			if !res.OK {
+				vx.Harnessf("extras: MsgSendCall failed: %v", res.Err)
+			}
+			pkt, err := ibctesting.ParseV2PacketFromEvents(res.Events)
+			if err != nil {
+				vx.Harnessf("cannot parse gmp packet: %v", err)
+			}
+			p := &sim.Pkt{Idx: len(w.Pkts), Link: l.Idx, Dir: 0, V2: true, SrcHeight: res.Height, P2: pkt}
+			w.Pkts = append(w.Pkts, p)
+			h := w.FreshHeight(l, 1, 2)
+			res = w.Deliver(1, 2, w.BuildRecv(p, h, 2))
+			if !res.OK {
+				vx.Harnessf("extras: gmp recv failed: %v", res.Err)
+			}
+			w.NoteAck(p, res)
 		}
 	}
 	if ex.ICA {
